@@ -65,6 +65,7 @@ theorem c16_on_source (wf : Wf) (hac : acyclic wf) (ts : List Nat) (hts : ∀ t 
 
 
 
+
 -- BEGIN PINS (written by bin/mkpins; do not edit by hand)
 /-- the Go functions this property's model and obligations were written against have exactly the
 pinned skeletons (SHA-256 prefix of the atom list) -/
@@ -128,7 +129,7 @@ theorem pinned_skeletons_c16 :
      ("Scipipe.Workflow_SetSink", "7da5ff0b1e07295f"),
      ("Scipipe.Workflow_readyToRun", "378c8cdc8eb779a8"),
      ("Scipipe.Workflow_reconnectDeadEndConnections", "9ed90a908028bbfc"),
-     ("Scipipe.Workflow_runProcs", "e319d71e11b8d924"),
+     ("Scipipe.Workflow_runProcs", "62dfa98c32085220"),
      ("Scipipe.mergeWFMaps", "c658dad781cfdc20"),
      ("Scipipe.upstreamProcsForProc", "f9ed2dcd363d8677")] = true := by decide
 -- END PINS
